@@ -149,9 +149,12 @@ func (m *MonC05) OnReq(w *World, r *Req) {
 		setAnnotation(want, annOwners, "")
 		setAnnotation(got, annOwners, "")
 	}
-	// labels removed through the label may leave an empty map
-	if l, ok := store.Get(got, "metadata", "labels").(map[string]any); ok && len(l) == 0 {
-		delete(store.Meta(got), "labels")
+	// "at most ... the cache label": it may go or stay; removing it may leave an empty map
+	if l, ok := store.Get(got, "metadata", "labels").(map[string]any); ok {
+		delete(l, lblCache)
+		if len(l) == 0 {
+			delete(store.Meta(got), "labels")
+		}
 	}
 	if a, ok := store.Get(got, "metadata", "annotations").(map[string]any); ok && len(a) == 0 {
 		delete(store.Meta(got), "annotations")
